@@ -243,6 +243,130 @@ def edit(src, qual, how):
         for ln, c0, c1 in sorted(set(spots), reverse=True):
             line = lines[ln - 1].encode('utf-8')
             lines[ln - 1] = (line[:c1] + b'_' + line[c1:]).decode('utf-8')
+    elif how in ('splitif', 'mergeif'):
+        # splitif: first `if A and B:` (no else, single-line test) -> `if A:` + nested `if B:`;  mergeif: first `if A:` whose whole body is
+        # one `if B:` (neither has an else) -> `if (A) and (B):`
+        nested = [f2 for f2 in ast.walk(node) if f2 is not node and isinstance(f2, (ast.FunctionDef, ast.AsyncFunctionDef, ast.ClassDef))]
+        inner = {id(y) for f2 in nested for y in ast.walk(f2)}
+        cand = None
+        for x in ast.walk(node):
+            if id(x) in inner or not isinstance(x, ast.If) or x.orelse or x.test.lineno != x.test.end_lineno or x.lineno != x.test.lineno:
+                continue
+            head = lines[x.lineno - 1]
+            if not head.strip().startswith('if ') or not head.rstrip().endswith(':') or x.body[0].lineno == x.lineno:
+                continue            # elif / one-liner
+            if how == 'splitif' and isinstance(x.test, ast.BoolOp) and isinstance(x.test.op, ast.And) and len(x.test.values) == 2:
+                cand = x
+                break
+            if how == 'mergeif' and len(x.body) == 1 and isinstance(x.body[0], ast.If) and not x.body[0].orelse \
+                    and x.body[0].test.lineno == x.body[0].test.end_lineno == x.body[0].lineno and x.body[0].body[0].lineno > x.body[0].lineno \
+                    and lines[x.body[0].lineno - 1].strip().startswith('if ') and x.body[0].lineno == x.lineno + 1:
+                cand = x
+                break
+        if cand is None:
+            return None
+        head = lines[cand.lineno - 1]
+        ind = head[:len(head) - len(head.lstrip())]
+        if how == 'splitif':
+            a, b = cand.test.values
+            la = head.encode('utf-8')
+            ta = la[a.col_offset:a.end_col_offset].decode()
+            tb = la[b.col_offset:b.end_col_offset].decode()
+            b0, b1 = cand.body[0].lineno - 1, cand.body[-1].end_lineno
+            body = lines[b0:b1]
+            for x in ast.walk(cand):
+                if isinstance(x, (ast.Constant, ast.JoinedStr)) and getattr(x, 'lineno', 0) != getattr(x, 'end_lineno', 0):
+                    return None
+            lines[cand.lineno - 1:b1] = [ind + 'if %s:' % ta, ind + '    if %s:' % tb] + [('    ' + l if l.strip() else l) for l in body]
+        else:
+            inner_if = cand.body[0]
+            ih = lines[inner_if.lineno - 1]
+            ta = head.strip()[3:-1]
+            tb = ih.strip()[3:-1]
+            b0, b1 = inner_if.body[0].lineno - 1, inner_if.body[-1].end_lineno
+            body = lines[b0:b1]
+            for x in ast.walk(inner_if):
+                if isinstance(x, (ast.Constant, ast.JoinedStr)) and getattr(x, 'lineno', 0) != getattr(x, 'end_lineno', 0):
+                    return None
+            ded = []
+            for l in body:
+                if l.strip() and not l.startswith(ind + '        '):
+                    return None
+                ded.append(l[4:] if l.strip() else l)
+            lines[cand.lineno - 1:b1] = [ind + 'if (%s) and (%s):' % (ta, tb)] + ded
+    elif how == 'demorgan':
+        # first single-line test `not A or not B` / `not A and not B` ... we go the other way: `A and B` in an if-test with else -> swap to
+        # `if not A or not B:` with the branches exchanged is covered by ifswap; here: `not (X)` around a 2-operand and/or is distributed
+        nested = [f2 for f2 in ast.walk(node) if f2 is not node and isinstance(f2, (ast.FunctionDef, ast.AsyncFunctionDef, ast.ClassDef))]
+        inner = {id(y) for f2 in nested for y in ast.walk(f2)}
+        cand = None
+        for x in ast.walk(node):
+            if id(x) in inner:
+                continue
+            if isinstance(x, ast.UnaryOp) and isinstance(x.op, ast.Not) and isinstance(x.operand, ast.BoolOp) and len(x.operand.values) == 2 \
+                    and x.lineno == x.end_lineno:
+                cand = x
+                break
+        if cand is None:
+            return None
+        line = lines[cand.lineno - 1].encode('utf-8')
+        a, b = cand.operand.values
+        ta = line[a.col_offset:a.end_col_offset].decode()
+        tb = line[b.col_offset:b.end_col_offset].decode()
+        op = 'or' if isinstance(cand.operand.op, ast.And) else 'and'
+        rep = '(not (%s) %s not (%s))' % (ta, op, tb)
+        lines[cand.lineno - 1] = (line[:cand.col_offset] + rep.encode() + line[cand.end_col_offset:]).decode('utf-8')
+    elif how == 'untemp':
+        # the first local bound once to a plain attribute chain (`par = name.parent`) disappears: its uses read the chain again
+        nested = [f2 for f2 in ast.walk(node) if f2 is not node and isinstance(f2, (ast.FunctionDef, ast.AsyncFunctionDef, ast.Lambda, ast.ClassDef))]
+        inner = {id(y) for f2 in nested for y in ast.walk(f2)}
+        stores, store_lines = {}, {}
+        for x in ast.walk(node):
+            if isinstance(x, ast.Name) and isinstance(x.ctx, (ast.Store, ast.Del)) and id(x) not in inner:
+                stores[x.id] = stores.get(x.id, 0) + 1
+                store_lines.setdefault(x.id, []).append(x.lineno)
+        params = {a.arg for a in node.args.posonlyargs + node.args.args + node.args.kwonlyargs}
+        cand = None
+        for st in ast.walk(node):
+            if id(st) in inner or not (isinstance(st, ast.Assign) and len(st.targets) == 1 and isinstance(st.targets[0], ast.Name)):
+                continue
+            nm, v = st.targets[0].id, st.value
+            if stores.get(nm) != 1 or nm in params or st.lineno != st.end_lineno or not isinstance(v, ast.Attribute):
+                continue
+            if not all(isinstance(y, (ast.Name, ast.Attribute, ast.Load)) for y in ast.walk(v)):
+                continue
+            reads = {y.id for y in ast.walk(v) if isinstance(y, ast.Name)}
+            uses = [y for y in ast.walk(node) if isinstance(y, ast.Name) and y.id == nm and isinstance(y.ctx, ast.Load)]
+            if not uses or any(id(y) in inner for y in uses) or any(y.lineno <= st.lineno for y in uses):
+                continue
+            last = max(y.lineno for y in uses)
+            if any(st.lineno < ln <= last for r in reads for ln in store_lines.get(r, [])):
+                continue            # what it reads is re-bound before the last use
+            # a loop around the binding whose header lies after... keep it simple: binding and uses inside the same innermost loop body
+            loops = [l for l in ast.walk(node) if isinstance(l, (ast.For, ast.While)) and id(l) not in inner]
+            def loop_of(n_):
+                best = None
+                for l in loops:
+                    if l.lineno <= n_.lineno <= l.end_lineno and (best is None or l.lineno >= best.lineno):
+                        best = l
+                return best
+            if any(loop_of(y) is not loop_of(st) for y in uses):
+                continue
+            # no attribute of the chain's root may be stored to in the function
+            if any(isinstance(y, ast.Attribute) and isinstance(y.ctx, (ast.Store, ast.Del)) for y in ast.walk(node)):
+                continue
+            line = lines[st.lineno - 1]
+            if line.strip() != '%s = %s' % (nm, line.encode('utf-8')[v.col_offset:v.end_col_offset].decode()):
+                continue
+            cand = (st, nm, line.encode('utf-8')[v.col_offset:v.end_col_offset].decode(), uses)
+            break
+        if cand is None:
+            return None
+        st, nm, vtxt, uses = cand
+        for y in sorted(uses, key=lambda y: (y.lineno, y.col_offset), reverse=True):
+            line = lines[y.lineno - 1].encode('utf-8')
+            lines[y.lineno - 1] = (line[:y.col_offset] + vtxt.encode() + line[y.end_col_offset:]).decode('utf-8')
+        del lines[st.lineno - 1]
     elif how == 'tmpret':
         # `return EXPR` -> `_res = EXPR; return _res` for the LAST return of the function (single-line, own line)
         rets = [x for x in ast.walk(node) if isinstance(x, ast.Return) and x.value is not None and x.lineno == x.end_lineno
